@@ -1,5 +1,5 @@
 (* C16 — Revision identifiers resolve to the right revision or fail loudly.  Statement-only file. *)
-From AV Require Import Model.Resolve Spec.C16 Proofs.ResolveProof Proofs.ResolveMain.
+From AV Require Import Model.Resolve Spec.C16 Proofs.ResolveProof Proofs.ResolveMain Proofs.ResolveLabels Proofs.ResolveAll.
 
 (* the decider applied to the implementation's output is sound (and complete) for the property *)
 Theorem C16_decider_sound : forall i o, check_C16 i o = true -> C16_holds i o.
@@ -169,3 +169,49 @@ Proof.
   cbv zeta. destruct (load_in (mkIn G_ok [(sc, sc)] [] [sb; sc])) as [M|] eqn:E; [|vm_compute in E; discriminate].
   exists M. repeat split; vm_compute; reflexivity.
 Qed.
+
+(* MAIN THEOREM: on the whole proved class (a boolean on the input, Spec.C16.inclass_C16: well-formed acyclic history
+   that loads, ids/labels/current revisions of word characters, every name of every identifier string a full id, a
+   branch label or a partial id under ids_len_ge4 /\ labels_prefix_free; all forms of the grammar) the model's
+   observable satisfies exactly the statement the harness decides on the implementation's output.
+   Not in the class (said in Spec.C16.qclassb): label@+N with a non-empty version table; label@-N with a non-empty
+   version table none of whose revisions is on the branch; label@name as a downgrade target where the unchecked
+   label would change the answer (the recorded finding). *)
+Theorem C16_model_holds : forall i, inclass_C16 i = true -> C16_holds i (run i).
+Proof. exact ResolveAll.model_holds. Qed.
+Print Assumptions C16_model_holds.
+
+(* which revision carries which branch label after the load, for EVERY admissible order oracle: exactly `carries`
+   (Spec.C16): the labels as written, plus, for each labelled revision R handled in the oracle's order, the labels R
+   carries at that moment on R's down_revision-descendants and on the upward chain from the last-yielded descendant
+   up to (excluding) the first real branch point or merge point *)
+Theorem C16_labels_invariant : forall G rk oracle M, NoDup (ids G) -> ranked G rk -> load G oracle = Ok M ->
+  map fst (m_blabels M) = ids G /\
+  forall x L, In x (ids G) -> (In L (labels_get (m_blabels M) x) <-> carries G oracle x L).
+Proof. intros G rk oracle M ND RK H. exact (ResolveLabels.labels_invariant G rk ND RK oracle M H). Qed.
+Print Assumptions C16_labels_invariant.
+
+(* with one labelled revision this is the plain statement: x carries L iff L is written on x, or L is written on R and
+   x is R, a descendant of R, or on the upward chain from the last-yielded descendant *)
+Theorem C16_labels_single : forall G R last x L,
+  carries G [(R, last)] x L <->
+  orig_label G x L \/ (orig_label G R L /\ In x (ids G) /\ (anc G x R \/ In x (upchain G (S (length G)) last))).
+Proof. intros. reflexivity. Qed.
+Print Assumptions C16_labels_single.
+
+(* hence the branch-label clause of the property holds of the model (every descendant has the label; a label only on
+   revisions sharing lineage with its owner) *)
+Theorem C16_labels_ok : forall G rk oracle M, NoDup (ids G) -> ranked G rk -> refs_ok G -> load G oracle = Ok M ->
+  labels_okb G (m_blabels M) = true.
+Proof. intros G rk oracle M ND RK RO H. exact (ResolveLabels.labels_ok_model G rk oracle M ND RK RO H). Qed.
+Print Assumptions C16_labels_ok.
+
+(* non-vacuity of the class: a labelled branching history, a current revision, and one identifier of every form *)
+Definition nv_in : c16_in :=
+  mkIn [mkS sb [] [] []; mkS sc [sb] [] [sl]; mkS [99;100;101;102]%N [sb] [] []]
+       [(sc, sc)] [sc]
+       [sb; [98;99]%N; sl; s_head; s_heads; s_base; at_join sl s_head; at_join sl sc; at_join sl s_heads;
+        (sb ++ [43;49])%N; (sc ++ [45;49])%N; [45;49]%N; [43;49]%N; at_join sl [45;49]%N; at_join sl (sb ++ [43;49])%N;
+        (s_head ++ [45;49])%N; [64]%N].
+Example C16_model_holds_class_nonvacuous : inclass_C16 nv_in = true /\ check_C16 nv_in (run nv_in) = true.
+Proof. split; vm_compute; reflexivity. Qed.
